@@ -58,7 +58,7 @@ def atoms_under(node):
 
 
 def structure_harness(name, shapes, label_mode, perm_two=False, allow_kf3=False, flags_mode="free",
-                      edges_mode="free"):
+                      edges_mode="free", history=False):
     from graphs.common import GJob, GSched, GPure
     from dot.parser import parse, DotSyntaxError
     from props.c15 import check_list
@@ -109,10 +109,32 @@ def structure_harness(name, shapes, label_mode, perm_two=False, allow_kf3=False,
                             kf3 = True
         if kf3 and not allow_kf3:
             api.assume(False)       # known finding KF-3 (input class), recorded in known_findings.json
+        edited = None
+        if history and api.flag("listed_then_edited"):
+            # history: the tree is listed (which computes cached reverse links at every level), then a job is taken
+            # out of a nested scheduler through the public API, then exported
+            from graphs.common import capture
+            capture(top.list)
+            cands = [n for n in allnodes if n["kind"] == "s" and len(n["kids"]) >= 2 and n["kids"][-1]["kind"] == "j"]
+            if not cands:
+                api.assume(False)
+            holder = cands[api.choice("edit_in", len(cands))]
+            victim = holder["kids"][-1]
+            for sib in holder["kids"]:
+                if victim in sib["reqs"]:
+                    sib["obj"].requires(victim["obj"], remove=True)
+                    sib["reqs"].remove(victim)
+                    nedges -= 1
+            nedges -= len(victim["reqs"])
+            holder["obj"].remove(victim["obj"])
+            holder["kids"].remove(victim)
+            allnodes.remove(victim)
+            edited = "list(); %s.remove(%s)" % (holder["label"], victim["label"])
+            api.note("c20_listed_then_edited")
         if nedges or any(n["kind"] == "s" for n in allnodes):
             api.note("nt")
         info = {"shape": shape, "labels": {n["n"]: n["label"] for n in allnodes},
-                "edges": [(a["n"], b["n"]) for b in allnodes for a in b["reqs"]]}
+                "edges": [(a["n"], b["n"]) for b in allnodes for a in b["reqs"]], "history": edited}
         try:
             text = top.dot_format()
         except Exception as e:
@@ -312,11 +334,15 @@ def harnesses(tier):
     if tier == "quick":
         return [structure_harness("structure", ["flat3", "n1", "n2", "deep", "empty", "emptyin"], "plain"),
                 structure_harness("structure-big", ["big", "ten"], "plain", flags_mode="none", edges_mode="chain"),
-                structure_harness("nasty-labels", ["flat2", "n1"], "nasty", flags_mode="none")]
+                structure_harness("nasty-labels", ["flat2", "n1"], "nasty", flags_mode="none"),
+                structure_harness("listed-then-edited", ["n1", "deep2", "n2"], "plain", flags_mode="none",
+                                  history=True)]
     return [structure_harness("structure", ["flat3", "n1", "n2", "n3", "deep", "deep2", "empty", "emptyin"], "plain",
                               perm_two=True),
             structure_harness("structure-big", ["big", "ten"], "plain", flags_mode="none", edges_mode="chain"),
-            structure_harness("nasty-labels", ["flat2", "n1", "deep"], "nasty", flags_mode="none")]
+            structure_harness("nasty-labels", ["flat2", "n1", "deep"], "nasty", flags_mode="none"),
+            structure_harness("listed-then-edited", ["n1", "deep2", "n2", "big"], "plain", flags_mode="none",
+                              history=True)]
 
 
 # ------------------------------------------------------------------------------------ part L: CrossHair
